@@ -197,8 +197,8 @@ func (s c15replay) Seed(int64) {}
 func VHShuffle() {
 	n := vChoose("n", vParam("NS")+1)
 	s, snap := c15ints(n)
+	vSymSourceLimit = n + vParam("REDRAWS") // also bounds a ShuffleRand that wrongly draws from the global generator
 	if vChoose("global", 2) == 1 {
-		vSymSourceLimit = n + vParam("REDRAWS")
 		Shuffle(s)
 		c15perm(s, snap, "Shuffle: result is a permutation of the input")
 		vCover("shuffle global")
@@ -207,6 +207,9 @@ func VHShuffle() {
 	var draws []uint64
 	ShuffleRand(s, rand.New(c15src{&draws, n + vParam("REDRAWS")}))
 	c15perm(s, snap, "ShuffleRand: result is a permutation of the input")
+	if n >= 2 {
+		vAssert(len(draws) >= n-1, "ShuffleRand draws its random numbers from the supplied generator")
+	}
 	// deterministic function of the supplied generator: same draws, same result, same consumption
 	s2 := append([]int(nil), snap...)
 	pos := 0
